@@ -2,3 +2,4 @@ pub use h_core::util;
 pub mod chain;
 pub mod wallet;
 pub mod run;
+#[cfg(feature = "transparent")] pub mod coins;
